@@ -205,7 +205,9 @@ class Module(object):
         known = rec.get('__functions__')
         self.inlined_helpers = 0
         if not os.environ.get('VERIF_NO_ALPHA'):
-            self.inlined_helpers = inline.inline_new_helpers(tree, known)
+            alpha.restore_renamed_functions(tree, rec)
+            self.inlined_helpers = inline.inline_new_helpers(
+                tree, known, rec.get('__calls__'))
             # table-driven rewrites are spelled out again (sa/tablenorm.py)
             tablenorm.inline_new_consts(tree, rec.get('__consts__'))
             tablenorm.kw_to_positional(
